@@ -154,3 +154,15 @@ pub fn write_older_read<New: Fam + Project<Old>, Old: Fam, S: Src>(s: &mut S) {
         Err(_) => assert!(false, "C18: older definition must read data written at its version"),
     }
 }
+
+/// C17 for derive-generated Introspect: for ALL indices (full usize domain) a child can be fetched exactly when the
+/// index is below introspect_len(), i.e. children are indexed consecutively from zero and the count is truthful.
+pub fn intro_index<T: Fam + savefile::Introspect, S: Src>(s: &mut S) {
+    let v = T::sym(s);
+    let i = s.usize();
+    let n = v.introspect_len();
+    let c = v.introspect_child(i);
+    let some = c.is_some();
+    core::mem::forget(c);
+    assert!(some == (i < n), "C17: introspect_child(i) is Some exactly for i < introspect_len()");
+}
